@@ -182,8 +182,90 @@ fn check_xyb_hsl(acc: &mut Acc, levels: &[f32], base: u64) {
     }
 }
 
+/// Neutral samples inside subsampled images whose neighbouring chroma samples are not neutral:
+/// the statement is about each sample, whatever surrounds it.
+fn check_mixed_chroma<T: yuvxyb::Pixel>(acc: &mut Acc, idx: u64, m: yuvxyb::MatrixCoefficients, full: bool, n: u8, ss: (u8, u8)) {
+    use yuvxyb::{Frame, Rgb, Yuv};
+    let (w, h) = (8usize, 8usize);
+    let max = ((1u32 << n) - 1) as u16;
+    let mid = (1u32 << (n - 1)) as u16;
+    let (sx, sy) = (ss.0 as usize, ss.1 as usize);
+    let chroma = |plane: usize| {
+        move |x: usize, y: usize| -> u16 {
+            if (x + y) % 2 == 0 {
+                mid
+            } else if (x + plane) % 2 == 0 {
+                0
+            } else {
+                max
+            }
+        }
+    };
+    let frame = Frame {
+        planes: [
+            plane_new::<T>(w, h, 0, 0, 0, 0, |x, y| (((x + y * w) as u32 * max as u32) / 63) as u16, None),
+            plane_new::<T>(w >> sx, h >> sy, sx, sy, 3, 0, chroma(1), Some(0)),
+            plane_new::<T>(w >> sx, h >> sy, sx, sy, 0, 2, chroma(2), Some(max)),
+        ],
+    };
+    let cfg = cfg_full(n, full, ss, m, TC::BT1886, CP::BT709);
+    let case = || json!({"kind":"c16mixed","matrix":format!("{m:?}"),"full":full,"depth":n,"ss":[ss.0,ss.1],"u16":std::mem::size_of::<T>()==2});
+    acc.states += (w * h) as u64;
+    acc.transitions += 1;
+    let rgb = match guarded(|| Rgb::try_from(&Yuv::new(frame, cfg).expect("well-formed"))) {
+        Ok(Ok(r)) => r,
+        other => {
+            acc.violation(idx, "grey-decode-failed (mixed chroma)".into(), format!("{:?}", other.map(|r| r.map(|_| ()))), case());
+            return;
+        }
+    };
+    let mut neutral = 0;
+    for y in 0..h {
+        for x in 0..w {
+            if ((x >> sx) + (y >> sy)) % 2 == 0 {
+                neutral += 1;
+                let p = rgb.data()[y * w + x];
+                let s = spread(p);
+                if s > 5e-7 {
+                    acc.violation(
+                        idx,
+                        format!("grey-not-neutral among coloured neighbours ss=({},{})", ss.0, ss.1),
+                        format!("{m:?} full={full} depth {n}: pixel ({x},{y}) has neutral chroma but decodes to {} (spread {s:.3e})", px3s(p)),
+                        case(),
+                    );
+                    return;
+                }
+            }
+        }
+    }
+    acc.bucket("neutral samples among coloured neighbours decode to grey", neutral);
+}
+
 pub fn run(_tier: Tier) -> Report {
     let mut rep = Report::new("C16");
+    {
+        let mut jobs = vec![];
+        for &m in STD_MATRICES.iter() {
+            for full in [false, true] {
+                for (n, wide) in [(8u8, false), (10, true), (16, true)] {
+                    for ss in [(0u8, 0u8), (1, 0), (1, 1), (0, 1), (2, 0), (2, 2)] {
+                        jobs.push((m, full, n, wide, ss));
+                    }
+                }
+            }
+        }
+        let acc = par_chunks(jobs.len() as u64, 4, |acc, lo, hi| {
+            for i in lo..hi {
+                let (m, full, n, wide, ss) = jobs[i as usize];
+                if wide {
+                    check_mixed_chroma::<u16>(acc, (5u64 << 32) + i, m, full, n, ss)
+                } else {
+                    check_mixed_chroma::<u8>(acc, (5u64 << 32) + i, m, full, n, ss)
+                }
+            }
+        });
+        rep.acc.merge(acc);
+    }
     let cfgs = configs();
     let acc = par_chunks(cfgs.len() as u64, 1, |acc, lo, _| check_yuv_grey(acc, &cfgs[lo as usize], lo << 16));
     rep.acc.merge(acc);
@@ -198,7 +280,7 @@ pub fn run(_tier: Tier) -> Report {
     rep.acc.merge(acc);
     rep.acc.sample(json!({"yuv":"every luma code at every depth 8..16 with U=V=2^(n-1), 140 configs","linear":"2^20+1 grey levels k/2^20 plus 2^-k (k=21..60), min normal, min subnormal"}));
     rep.exhaustive = true;
-    rep.bound = format!("every luma code of every depth (sum 130,816 per matrix x range x storage) x 140 configs; {} linear grey levels through 14 curves x 2 directions, 22 primaries directions, XYB and HSL", nl);
+    rep.bound = format!("every luma code of every depth (sum 130,816 per matrix x range x storage) x 140 configs; neutral samples inside 8x8 images with alternating neutral/saturated chroma for 6 subsamplings x 7 matrices x 2 ranges x depths {{8,10,16}}; {} linear grey levels through 14 curves x 2 directions, 22 primaries directions, XYB and HSL", nl);
     rep.rule = "decode spread <= 5e-7, black exactly 0, white within 1e-6; curves 0->0 within 1e-6 (non-log) and 1->1 within the C03 budget, grey stays bit-identical across channels; primaries grey spread <= 1e-5*max(1,v); XYB |X|,|Y-B| <= 1e-6 and black -> 0; HSL grey -> (0,0,level)".into();
     rep.assumptions = vec!["the 2^20-level grid plus the 2^-k stratum stands for 'all grey levels' of the continuous linear axis; the code axis is complete".into()];
     rep.guard_bucket("grey codes decode to R=G=B (black exactly 0, white within 1e-6)");
@@ -206,6 +288,7 @@ pub fn run(_tier: Tier) -> Report {
     rep.guard_bucket("grey through a primaries conversion stays grey");
     rep.guard_bucket("grey -> XYB neutral");
     rep.guard_bucket("grey -> HSL has H=0, S=0, L=level");
+    rep.guard_bucket("neutral samples among coloured neighbours decode to grey");
     rep.guard("curve anchors: 14 curves x 2 directions x 2", rep.acc.buckets.get("curve anchors checked").copied().unwrap_or(0) == 56);
     let _ = (DEPTH_STORAGE, STD_MATRICES);
     rep
@@ -216,6 +299,16 @@ pub fn replay(case: &Value) -> (bool, String) {
     match case["kind"].as_str().unwrap() {
         "c16yuv" => check_yuv_grey(&mut acc, &super::c01::Cfg::from_json(&case["cfg"]), 0),
         "c16curve" => check_curve(&mut acc, tc_from_name(case["tc"].as_str().unwrap()), &[f32::from_bits(case["x"].as_u64().unwrap() as u32)], 0),
+        "c16mixed" => {
+            let m = mc_from_name(case["matrix"].as_str().unwrap());
+            let (full, n) = (case["full"].as_bool().unwrap(), case["depth"].as_u64().unwrap() as u8);
+            let ss = (case["ss"][0].as_u64().unwrap() as u8, case["ss"][1].as_u64().unwrap() as u8);
+            if case["u16"].as_bool().unwrap() {
+                check_mixed_chroma::<u16>(&mut acc, 0, m, full, n, ss)
+            } else {
+                check_mixed_chroma::<u8>(&mut acc, 0, m, full, n, ss)
+            }
+        }
         "c16prim" => check_primaries(&mut acc, cp_from_name(case["primaries"].as_str().unwrap()), case["to709"].as_bool().unwrap(), &[f32::from_bits(case["x"].as_u64().unwrap() as u32)], 0),
         _ => check_xyb_hsl(&mut acc, &[f32::from_bits(case["x"].as_u64().unwrap() as u32)], 0),
     }
